@@ -436,6 +436,36 @@ pub fn sched_subs_for(id: &str) -> Vec<Sub> {
                 60,
                 2_000,
             ),
+            sched_sub(
+                p_sched::SchedProp {
+                    max_repeats: 1,
+                    thread_choices: vec![6, 8],
+                    dfs_limit: 1500,
+                    ..sp(
+                        "C01",
+                        "c01-sched-dfs-batch",
+                        "tiny plans with one small batch (<= 4 outer ops, <= 2 inner systems, custom controller dispatching 1..2 times): all interleavings of the enabled fetch/release events incl. the inner dispatches (cut off at 1500 runs per plan)",
+                        GenCfg {
+                            max_ops: 4,
+                            max_inner_ops: 2,
+                            universe_max: 3,
+                            p_batch: 5,
+                            max_depth: 1,
+                            allow_multi: false,
+                            max_n: 2,
+                            p_tl: 0,
+                            p_static: 0,
+                            ..GenCfg::default()
+                        },
+                        vec![Want::Isolation, Want::Counts],
+                        vec![Par],
+                        vec![3],
+                        p_sched::nt_isolation,
+                    )
+                },
+                40,
+                1_500,
+            ),
             async_sub(
                 "C01",
                 "c01-async",
@@ -445,7 +475,29 @@ pub fn sched_subs_for(id: &str) -> Vec<Sub> {
                 },
             ),
         ],
-        "C02" => vec![async_sub(
+        "C02" => vec![sched_sub(
+                p_sched::SchedProp {
+                    max_repeats: 1,
+                    thread_choices: vec![4, 8],
+                    ..sp(
+                        "C02",
+                        "c02-sched-dfs",
+                        "tiny dependency-heavy plans (<= 5 systems): all interleavings; Released(A) < FetchBegin(B) for every edge in each",
+                        GenCfg {
+                            p_dep: 10,
+                            max_deps: 2,
+                            universe_max: 8,
+                            ..tiny_cfg()
+                        },
+                        vec![Want::Deps],
+                        vec![Par],
+                        vec![3],
+                        p_sched::nt_deps,
+                    )
+                },
+                60,
+                2_000,
+            ), async_sub(
                 "C02",
                 "c02-async",
                 GenCfg {
@@ -477,7 +529,29 @@ pub fn sched_subs_for(id: &str) -> Vec<Sub> {
             8_000,
             200_000,
         )],
-        "C03" => vec![async_sub(
+        "C03" => vec![sched_sub(
+                p_sched::SchedProp {
+                    max_repeats: 1,
+                    thread_choices: vec![4, 8],
+                    ..sp(
+                        "C03",
+                        "c03-sched-dfs",
+                        "tiny plans with barriers (<= 6 ops): all interleavings; everything before a barrier released before anything after it begins in each",
+                        GenCfg {
+                            p_barrier: 4,
+                            max_ops: 6,
+                            universe_max: 8,
+                            ..tiny_cfg()
+                        },
+                        vec![Want::Barriers],
+                        vec![Par],
+                        vec![3],
+                        p_sched::nt_barriers,
+                    )
+                },
+                60,
+                2_000,
+            ), async_sub(
                 "C03",
                 "c03-async",
                 GenCfg {
